@@ -1,6 +1,6 @@
 CONFIG = {
     "props": "props/C42.v",
-    "runner": {"module": "Verif.model.VpackSpec", "ident": "check"},
+    "runner": {"module": "Verif.model.VpackNet", "ident": "check"},
     "harness": [{
         "name": "vpack", "pkg": "./network/vpack/", "run": "^TestVerifC42$",
         "files": ["network/vpack/zz_verif_c42_test.go"],
@@ -8,12 +8,24 @@ CONFIG = {
         "env": {"quick": {"VERIF_C42_CONNS": 120, "VERIF_C42_LEN": 24, "VERIF_C42_EXH_LEN": 5, "VERIF_C42_SL": 60},
                 "thorough": {"VERIF_C42_CONNS": 1200, "VERIF_C42_LEN": 40, "VERIF_C42_EXH_LEN": 7, "VERIF_C42_SL": 600}},
         "timeout": {"quick": 600, "thorough": 3000},
+    }, {
+        # the REAL sender / receiver wrapper: vpackCompressVote + wsPeerMsgCodec.compress/decompress + abort messages
+        "name": "net", "pkg": "./network/", "run": "^TestVerifC42Net$",
+        "files": ["network/zz_verif_c42net_test.go", "network/vpack/zz_verif_c42dump.go"],
+        "util": [("network", "network")],
+        "env": {"quick": {"VERIF_C42_NET_CONNS": 60}, "thorough": {"VERIF_C42_NET_CONNS": 600}},
+        "timeout": {"quick": 900, "thorough": 3000},
     }],
     "rule": "one case = one connection (real StatefulEncoder + StatefulDecoder of a table size in {16,32,64,256,2048}) fed a sequence of msgpack votes "
             "with repeated senders / one-time keys / proposals (more proposals than the 7-slot window, bucket collisions forced), rounds same/+1/-1/jump/0/MaxUint64, "
             "non-canonical uint forms of rnd, per, step, oper, reordered and repeated map keys, mutated votes, and a final mutated stateful frame / stateless frame / random bytes; "
             "EXHAUSTIVE: all 3^L sequences (L=5 quick, 7 thorough) over 3 votes whose sender and both key pairs share one 2-slot bucket. After every message the four "
             "intermediate byte strings and the complete encoder and decoder state (window, three LRU tables with MRU bits, lastRnd; dumped in-package) are compared with the model. "
+            "NETWORK LEVEL (cases (net ...)): a real sending wsPeerMsgCodec and a real receiving one (table sizes 16..2048) driven as the broadcast path / writeLoopSendMsg / readLoop / handleVPError do, "
+            "histories interleaving compressible votes with inputs on which StatefulEncoder.Compress fails at every point of its parse (votes the stateless encoder refuses: sig.ps != 0 or keys out of order, "
+            "sent as raw msgpack by the fallback; stateless frames cut at every field boundary, with an invalid or widened uint marker at every uint field, with trailing bytes), plus the history of seeded/m31; "
+            "per payload: wire messages, deliveries, both statefulVoteEnabled flags and (while both are set) the full encoder and decoder state dumped in package vpack; spec_ok: every delivered byte string "
+            "is the vote sent (for raw payloads: what a fresh real codec delivers over plain AV), something is delivered or the stream is aborted, encoder state = decoder state while both flags are set. "
             "A connection is non-trivial when at least 2 votes were reproduced and at least one was compressed with a table/window reference or round delta; distinct = distinct case lines.",
     "exhaustive": {"quick": False, "thorough": False},
     "explanation": "theorems: every byte string the stateless parser accepts round-trips exactly; Decompress inverts Compress from every shared well-formed state and both end in the same state; "
@@ -22,8 +34,10 @@ CONFIG = {
     "assumptions": ["bytes are < 256 (hypothesis bytes_ok of the theorems; true of every Go []byte)",
                     "table size <= 65536 entries: references are uint16 on the wire (config clamps to 2048)",
                     "msgp.AppendUint64 emits the shortest msgpack uint form (transcribed as append_uint64 from github.com/algorand/msgp)",
-                    "a vote rejected by StatelessEncoder.CompressVote is not passed to the stateful encoder (wsPeerMsgCodec falls back to the uncompressed message)"],
+                    "run_conn (theorem 9) treats a vote rejected by CompressVote as not touching the tables; the real wrapper hands the raw fallback to Compress, which fails and aborts the stream: that path is model/VpackNet.v (theorems 13-15)",
+                    "one direction of a connection; the abort message sent back by the receiver reaches the sender before its next vote (the harness delivers it immediately)"],
     "trusted_base": ["modelled: network/vpack/{msgp,parse,vpack,lru_table,proposal_window,dynamic_vpack}.go as Gallina (coq/model/Vpack.v); Go errors = None, no panics in the model",
                      "only tested, not proved: absence of Go panics on malformed frames (recover() in the harness maps a panic to a spec failure)",
-                     "network/msgCompressor.go (negotiation, fallback, abort messages) is outside the model"],
+                     "modelled: network/msgCompressor.go vpackCompressVote / wsPeerMsgCodec.compress / decompress and the abort handling of wsPeer.writeLoopSendMsg / handleVPError (coq/model/VpackNet.v); feature negotiation, goroutines and the websocket are not",
+                     "VERIF_C42_TRUNC=1 additionally generates refused votes longer than MaxCompressedVoteSize (recorded signature fallback_truncation, theorem fallback_truncates_refuted); off by default"],
 }
